@@ -121,3 +121,41 @@ type discardEncoder struct{}
 func (discardEncoder) EncodeToken(xml.Token) error                       { return nil }
 func (discardEncoder) Encode(interface{}) error                          { return nil }
 func (discardEncoder) EncodeElement(interface{}, xml.StartElement) error { return nil }
+
+// F21b: a peer-initiated close flushes the write buffer on the serve goroutine
+// (Conn.flush(t) does not take writeLock) while the application may be in
+// Write under writeLock: run with -race.
+func TestF21FlushWithoutWriteLock(t *testing.T) {
+	ch := &ibb.Handler{}
+	cs := xmpptest.NewClientServer(
+		xmpptest.ClientHandler(mux.New(stanza.NSClient, ibb.Handle(ch))),
+		xmpptest.ServerHandlerFunc(func(t xmlstream.TokenReadEncoder, start *xml.StartElement) error {
+			iq, err := stanza.NewIQ(*start)
+			if err != nil || (iq.Type != stanza.SetIQ && iq.Type != stanza.GetIQ) {
+				return nil
+			}
+			_, err = xmlstream.Copy(t, iq.Result(nil))
+			return err
+		}),
+	)
+	ctx, cancel := context.WithTimeout(context.Background(), 2*time.Second)
+	defer cancel()
+	conn, err := ch.OpenIQ(ctx, stanza.IQ{To: cs.Server.LocalAddr()}, cs.Client, true, 1024, "sid-w")
+	if err != nil {
+		t.Fatal(err)
+	}
+	done := make(chan struct{})
+	go func() {
+		defer close(done)
+		for i := 0; i < 2000; i++ {
+			conn.Write([]byte("x")) // stays in the 1024 byte buffer: no stanza is sent
+		}
+	}()
+	payload := xml.StartElement{Name: xml.Name{Space: ibb.NS, Local: "close"}, Attr: []xml.Attr{{Name: xml.Name{Local: "sid"}, Value: "sid-w"}}}
+	r := xmlstream.MultiReader(xmlstream.Token(payload.End()))
+	ch.HandleIQ(stanza.IQ{Type: stanza.SetIQ, ID: "1"}, struct {
+		xml.TokenReader
+		xmlstream.Encoder
+	}{TokenReader: r, Encoder: discardEncoder{}}, &payload)
+	<-done
+}
